@@ -124,24 +124,37 @@ theorem spawnList_slots (base cs threads : Nat) (cks : List (List Nat)) (h : cks
     simp [ht, this]
 
 
-/-- structure of the loop for `items ≥ 1`, `threads ≥ 1` -/
-theorem parLoop_ok (base items threads : Nat) (hi : 1 ≤ items) (ht : 1 ≤ threads) :
+/-- `chunk_size = items.div_ceil(threads).max(1)` -/
+def chunkSize (items threads : Nat) : Nat := max (divCeil items threads) 1
+
+theorem chunkSize_pos (items threads : Nat) : 0 < chunkSize items threads := by
+  unfold chunkSize; omega
+
+theorem chunkSize_mul_ge (items threads : Nat) (ht : 0 < threads) : items ≤ threads * chunkSize items threads := by
+  have h := divCeil_mul_ge items threads ht
+  have : threads * divCeil items threads ≤ threads * chunkSize items threads :=
+    Nat.mul_le_mul_left _ (by unfold chunkSize; omega)
+  omega
+
+/-- structure of the loop for `threads ≥ 1` (any number of items, zero included) -/
+theorem parLoop_ok (base items threads : Nat) (ht : 1 ≤ threads) :
     parLoop base items threads =
-      .ok (spawnList base (divCeil items threads) threads
-        (chunksMutAux (divCeil items threads) items base items)) := by
-  have hcs := divCeil_pos items threads hi ht
+      .ok (spawnList base (chunkSize items threads) threads
+        (chunksMutAux (chunkSize items threads) items base items)) := by
+  have hcs := chunkSize_pos items threads
   unfold parLoop chunksMut
   have h1 : threads ≠ 0 := by omega
-  have h2 : divCeil items threads ≠ 0 := by omega
+  have h2 : chunkSize items threads ≠ 0 := by omega
+  unfold chunkSize at h2 ⊢
   simp [h1, h2]
 
-theorem chunks_count_le (base items threads : Nat) (hi : 1 ≤ items) (ht : 1 ≤ threads) :
-    (chunksMutAux (divCeil items threads) items base items).length ≤ threads := by
-  have hcs := divCeil_pos items threads hi ht
+theorem chunks_count_le (base items threads : Nat) (ht : 1 ≤ threads) :
+    (chunksMutAux (chunkSize items threads) items base items).length ≤ threads := by
+  have hcs := chunkSize_pos items threads
   have h1 := aux_length _ hcs items base items (Nat.le_refl _)
-  have h2 := divCeil_mul_ge items threads ht
-  have : (chunksMutAux (divCeil items threads) items base items).length * divCeil items threads
-      < (threads + 1) * divCeil items threads := by
+  have h2 := chunkSize_mul_ge items threads ht
+  have : (chunksMutAux (chunkSize items threads) items base items).length * chunkSize items threads
+      < (threads + 1) * chunkSize items threads := by
     rw [Nat.succ_mul, Nat.mul_comm threads]; rw [Nat.mul_comm] at h2; omega
   have := Nat.lt_of_mul_lt_mul_right this
   omega
@@ -361,16 +374,16 @@ theorem flatten_threadSeq (plen : Nat → Nat) (qs : List (List Work)) :
   | cons q qs ih => simp [threadSeq, List.flatMap_append] at ih ⊢; rw [ih]
 
 
-theorem parLoop_disjoint (plen : Nat → Nat) (base items threads : Nat) (hi : 1 ≤ items) (ht : 1 ≤ threads) :
-    DisjointQ ((spawnList base (divCeil items threads) threads
-        (chunksMutAux (divCeil items threads) items base items)).map (threadSeq plen)) := by
-  have hcs := divCeil_pos items threads hi ht
-  have hlen := chunks_count_le base items threads hi ht
-  have hslots := spawnList_slots base (divCeil items threads) threads _ hlen
+theorem parLoop_disjoint (plen : Nat → Nat) (base items threads : Nat) (ht : 1 ≤ threads) :
+    DisjointQ ((spawnList base (chunkSize items threads) threads
+        (chunksMutAux (chunkSize items threads) items base items)).map (threadSeq plen)) := by
+  have hcs := chunkSize_pos items threads
+  have hlen := chunks_count_le base items threads ht
+  have hslots := spawnList_slots base (chunkSize items threads) threads _ hlen
   have hflat := aux_flatten _ hcs items base items (Nat.le_refl _)
-  generalize hqs : spawnList base (divCeil items threads) threads
-        (chunksMutAux (divCeil items threads) items base items) = qs at hslots
-  generalize hcks : chunksMutAux (divCeil items threads) items base items = cks at *
+  generalize hqs : spawnList base (chunkSize items threads) threads
+        (chunksMutAux (chunkSize items threads) items base items) = qs at hslots
+  generalize hcks : chunksMutAux (chunkSize items threads) items base items = cks at *
   have hnd : cks.flatten.Nodup := by rw [hflat]; exact List.nodup_range'
   rw [List.nodup_flatten] at hnd
   have hpw := hnd.2
